@@ -85,7 +85,12 @@ lines.append("Each sub-agent saw only the text of one property and a scratch "
              "consistency and simplification pull requests (a fix that "
              "over-corrects, two places made alike although one had a reason "
              "to differ, 'dead' code that was load-bearing); all 20 were "
-             "caught as the checks stood. %d changes in total: %d rejected as outside the "
+             "caught as the checks stood. Round 16 (S16-*) returned to "
+             "hidden triggers, without a description of the checks: 'a "
+             "careful test author generates the obvious dimensions; put "
+             "your defect on an input nobody thought of'; 14 of 20 were "
+             "caught as the checks stood (many on dimensions added in "
+             "rounds 6-12). %d changes in total: %d rejected as outside the "
              "quantified domain (marked), %d not detected (marked, a "
              "documented limit), %d detected; "
              "the 'caught by' column says when a check had to be "
